@@ -364,7 +364,7 @@ fn random_graph(u: &mut Unstructured) -> Graph {
 // ---- alias graphs ---------------------------------------------------------------------------
 
 /// <= 4 aliases, each target one of 8 forms over int32 / alias j (see `ALIAS_FORMS`)
-pub const ALIAS_FORMS: [&str; 8] = [
+pub const ALIAS_FORMS: [&str; 10] = [
     "int32",
     "alias j",
     "Sequence<alias j>",
@@ -373,6 +373,9 @@ pub const ALIAS_FORMS: [&str; 8] = [
     "Result<bool, alias j>",
     "Result<bool, Sequence<alias j>>",
     "Sequence<Result<alias j?, string>>",
+    // the same alias twice: a converging (acyclic) shape unless j leads back
+    "Result<alias j, alias j>",
+    "Dictionary<string, Result<alias j, Sequence<alias j>>>",
 ];
 
 pub fn alias_program(mut idx: u64) -> (Program, bool) {
@@ -381,8 +384,8 @@ pub fn alias_program(mut idx: u64) -> (Program, bool) {
     let mut defs = Vec::new();
     let mut edges: BTreeMap<String, BTreeSet<String>> = BTreeMap::new();
     for i in 0..n {
-        let form = (idx % 8) as usize;
-        idx /= 8;
+        let form = (idx % 10) as usize;
+        idx /= 10;
         let j = (idx % n as u64) as usize;
         idx /= 4;
         let target = format!("A{j}");
@@ -399,7 +402,9 @@ pub fn alias_program(mut idx: u64) -> (Program, bool) {
             4 => TypeM::result(t, TypeM::prim("bool")),
             5 => TypeM::result(TypeM::prim("bool"), t),
             6 => TypeM::result(TypeM::prim("bool"), TypeM::seq(t)),
-            _ => TypeM::seq(TypeM::result(t.opt(), TypeM::prim("string"))),
+            7 => TypeM::seq(TypeM::result(t.opt(), TypeM::prim("string"))),
+            8 => TypeM::result(t.clone(), t),
+            _ => TypeM::dict(TypeM::prim("string"), TypeM::result(t.clone(), TypeM::seq(t))),
         };
         defs.push(DefM::Alias(AliasM {
             pre: Prelude::default(),
@@ -437,7 +442,7 @@ pub fn alias_program(mut idx: u64) -> (Program, bool) {
     )
 }
 
-pub const ALIAS_TOTAL: u64 = 4 * 32 * 32 * 32 * 32;
+pub const ALIAS_TOTAL: u64 = 4 * 40 * 40 * 40 * 40;
 
 fn alias_case(cx: &mut CaseCtx, input: Input) -> CaseResult {
     let (p, cyclic) = alias_program(input.index());
@@ -555,7 +560,7 @@ impl Check for C05 {
         "C05"
     }
     fn rule(&self) -> String {
-        format!("families: small = every directed graph (self-loops allowed) over n <= 3 struct/enum nodes x every kind assignment x each of the 10 wrapper forms ({SMALL_TOTAL} programs, exhaustive); graph4 = every edge set over 4 nodes with kinds and mixed wrappers derived from the index (65536, exhaustive in the thorough tier, strided in quick); random = proptest choice sequences -> graphs of 2..10 nodes with multi-edges and mixed wrappers (out-degree <= 2); aliases = every assignment of 8 target forms {{int32, alias j, Sequence<alias j>, Dictionary<string, alias j?>, Result<alias j, bool>, Result<bool, alias j>, Result<bool, Sequence<alias j>>, Sequence<Result<alias j?, string>>}} to <= 4 aliases ({ALIAS_TOTAL}; strided in quick); enum nodes carry a field-less enumerator before, between or after the ones with fields (sampled per node); inheritance = every base relation over <= 4 interfaces incl. self-loops ({INHERIT_TOTAL}). Oracle: SCC analysis; E032 <=> a node lies on a cycle, every on-cycle node named by a chain reconstructed from note spans, every chain a real closed path of written fields; alias / inheritance loops rejected, acyclic ones accepted. Non-trivial = >= 1 edge through a non-trivial wrapper or >= 2 nodes on a cycle (all alias / inheritance cases count)")
+        format!("families: small = every directed graph (self-loops allowed) over n <= 3 struct/enum nodes x every kind assignment x each of the 10 wrapper forms ({SMALL_TOTAL} programs, exhaustive); graph4 = every edge set over 4 nodes with kinds and mixed wrappers derived from the index (65536, exhaustive in the thorough tier, strided in quick); random = proptest choice sequences -> graphs of 2..10 nodes with multi-edges and mixed wrappers (out-degree <= 2); aliases = every assignment of 10 target forms {{int32, alias j, Sequence<alias j>, Dictionary<string, alias j?>, Result<alias j, bool>, Result<bool, alias j>, Result<bool, Sequence<alias j>>, Sequence<Result<alias j?, string>>, Result<alias j, alias j>, Dictionary<string, Result<alias j, Sequence<alias j>>>}} to <= 4 aliases ({ALIAS_TOTAL}; strided in quick); enum nodes carry a field-less enumerator before, between or after the ones with fields (sampled per node); inheritance = every base relation over <= 4 interfaces incl. self-loops ({INHERIT_TOTAL}). Oracle: SCC analysis; E032 <=> a node lies on a cycle, every on-cycle node named by a chain reconstructed from note spans, every chain a real closed path of written fields; alias / inheritance loops rejected, acyclic ones accepted. Non-trivial = >= 1 edge through a non-trivial wrapper or >= 2 nodes on a cycle (all alias / inheritance cases count)")
     }
     fn assumptions(&self) -> Vec<String> {
         vec![
@@ -609,7 +614,7 @@ impl Check for C05 {
                 cx.set_key(&(g.n, &g.is_enum, &g.edges));
                 graph_case(cx, g)
             }),
-            Family::enumerate("aliases", ALIAS_TOTAL, tier.pick(7, 1), alias_case),
+            Family::enumerate("aliases", ALIAS_TOTAL, tier.pick(17, 1), alias_case),
             Family::enumerate("inheritance", INHERIT_TOTAL, tier.pick(5, 1), inherit_case),
             Family::replay_only("direct", |cx, i| {
                 // regression inputs: "<cyclic|acyclic>\n<source>": cyclic must be rejected, acyclic accepted
